@@ -19,6 +19,9 @@ package analysis
 //@ spec resOk(res) = res != nil && res.emptiedAccount != nil && res.declaredVars != nil && res.unusedVars != nil && res.varResolution != nil && res.fnCallResolution != nil && forallstr(k, has(res.declaredVars, k) ==> declOk(res.declaredVars[k])) && forallref(f, has(res.fnCallResolution, f) ==> typeis(res.fnCallResolution[f], StatementFnCallResolution) || typeis(res.fnCallResolution[f], VarOriginFnCallResolution)) && forallref(v, has(res.varResolution, v) ==> declOk(res.varResolution[v]))
 // the same for a check result held by value (as the language server stores it)
 //@ spec crOk(cr) = cr.emptiedAccount != nil && cr.declaredVars != nil && cr.unusedVars != nil && cr.varResolution != nil && cr.fnCallResolution != nil && forallstr(k, has(cr.declaredVars, k) ==> declOk(cr.declaredVars[k])) && forallref(f, has(cr.fnCallResolution, f) ==> typeis(cr.fnCallResolution[f], StatementFnCallResolution) || typeis(cr.fnCallResolution[f], VarOriginFnCallResolution)) && forallref(v, has(cr.varResolution, v) ==> declOk(cr.varResolution[v]))
+// knownType(name): name is one of the six type names - a name for what isTypeAllowed computes over the package variable
+// AllowedTypes (whose content the verifier does not see)
+//@ relation knownType
 //@ spec exprOk(e) = e == nil || ewf(e)
 // position lies in the closed range (what Range.Contains computes)
 //@ spec rangeHas(r, p) = (p.Line > r.Start.Line || (p.Line == r.Start.Line && p.Character >= r.Start.Character)) && (r.End.Line > p.Line || (r.End.Line == p.Line && r.End.Character >= p.Character))
@@ -121,17 +124,22 @@ package analysis
 //@   requires [state] resOk(res)
 //@   requires [node] fnCall != nil && ewf(*fnCall)
 //@   ensures [state] resOk(res)
+//@   ensures [only-grows] len(res.Diagnostics) >= old(len(res.Diagnostics))
 //@   modifies res.Diagnostics, entries(res.varResolution), entries(res.unusedVars)
 //@   loop 1
 //@     invariant [args] forall(i, 0, len(validArgs), ewf(validArgs[i]))
 //@   loop 2
 //@     invariant [state] resOk(res)
+//@     invariant [only-grows] len(res.Diagnostics) >= old(len(res.Diagnostics))
 //@   loop 3
 //@     invariant [state] resOk(res)
+//@     invariant [only-grows] len(res.Diagnostics) >= old(len(res.Diagnostics))
 
 //@ func (*CheckResult).checkVarType
 //@   requires [state] resOk(res)
 //@   ensures [state] resOk(res)
+//@   ensures [unknown-type-reported] {C17} !knownType(typeDecl.Name) ==> grewBy(res, 1) && typeis(res.Diagnostics[old(len(res.Diagnostics))].Kind, *InvalidType) && res.Diagnostics[old(len(res.Diagnostics))].Range == typeDecl.Range
+//@   ensures [known-type-silent] {C16} knownType(typeDecl.Name) ==> grewBy(res, 0)
 //@   modifies res.Diagnostics
 
 //@ func (*CheckResult).checkDuplicateVars
@@ -148,6 +156,7 @@ package analysis
 //@   requires [state] resOk(res)
 //@   requires [node] ewf(fnCall) && ewf(decl) && decl.Origin != nil
 //@   ensures [state] resOk(res)
+//@   ensures [only-grows] len(res.Diagnostics) >= old(len(res.Diagnostics))
 //@   modifies res.Diagnostics, entries(res.varResolution), entries(res.unusedVars), entries(res.fnCallResolution)
 
 //@ func (*CheckResult).checkStatement
@@ -163,6 +172,7 @@ package analysis
 //@   modifies res.Diagnostics, res.emptiedAccount, res.unboundedAccountInSend, res.unboundedSend, entries(res.varResolution), entries(res.unusedVars), entries(res.fnCallResolution), entries(res.declaredVars)
 //@   loop 1
 //@     invariant [state] resOk(res)
+//@     assert [unknown-type-reported] {C17} varDecl.Type != nil && !knownType(varDecl.Type.Name) ==> len(res.Diagnostics) >= athead(len(res.Diagnostics)) + 1
 //@   loop 2
 //@     invariant [state] resOk(res)
 //@   loop 3
@@ -355,4 +365,8 @@ package analysis
 //@ func (*UnboundedAccountIsNotLast).Message
 //@   deterministic
 //@   nosafety
+//@   modifies nothing
+
+//@ func isTypeAllowed
+//@   assumes [is-known-type] result == knownType(typeName)
 //@   modifies nothing
